@@ -5,7 +5,7 @@ CONSTANTS
   BatchN <- G_stream_N
   MaxQueue = 2
   BufCap = 1
-  SubIds = {1, 2}
+  SubIds = {1, 2, 101, 102}
   Dev = {}
   PeerMenu = {}
   MaxPeer = 0
